@@ -100,6 +100,15 @@ Theorem C01_block_rows_kept sc t hash txs h t' a :
   In a (db_apps t) -> memN (a_loc a) txs = false -> In a (db_apps t').
 Proof. exact (w_block_connected_rows_kept sc t hash txs h t' a). Qed.
 
+(* verdict by txid: two breached rows whose blobs decrypt to the same penalty share one fate *)
+Theorem C01_shared_verdict sc t hash txs h t' a1 a2 p :
+  Inv t -> w_block_connected sc t (cache_block hash txs) h = Ok tt t' ->
+  In a1 (db_apps t) -> In a2 (db_apps t) ->
+  memN (a_loc a1) txs = true -> memN (a_loc a2) txs = true ->
+  decrypt (a_blob a1) (a_loc a1) = Some p -> decrypt (a_blob a2) (a_loc a2) = Some p ->
+  (In a1 (db_apps t') <-> In a2 (db_apps t')).
+Proof. exact (shared_verdict sc t hash txs h t' a1 a2 p). Qed.
+
 (* "from then on reported as dispute_responded with exactly that penalty and dispute": while the
    tracker row is held (until completion / purge / rejection: C04) its owner's get_appointment
    answers with the tracker's dispute and penalty *)
@@ -197,6 +206,7 @@ Print Assumptions C01_handle_breach_abort.
 Print Assumptions C01_block_breaches.
 Print Assumptions C01_block_frame.
 Print Assumptions C01_block_rows_kept.
+Print Assumptions C01_shared_verdict.
 Print Assumptions C01_reported_responded.
 Print Assumptions C01_add_triggered.
 Print Assumptions C01_add_stored.
